@@ -78,9 +78,43 @@ def qc_jobs(wd, names):
     return jobs
 
 
+QP_CFG = """SPECIFICATION FairSpec
+CONSTANTS
+  NMsg = %d
+  StorePool = %d
+  RelayPool = %d
+  MaxTries = 2
+  Listener = %s
+  KF_BlockingFollowUp = %s
+  KF_ListenerInPool = %s
+INVARIANT C19like_Bounds
+INVARIANT C01_NoPoolDeadlock
+PROPERTY C01_EventuallySettled
+CHECK_DEADLOCK FALSE
+"""
+
+
+def pool_jobs(wd, tier):
+    """spec/QueuePools.tla: the bounded store / relay pools as resources (no cyclic wait, every message settles)"""
+    jobs = []
+    for n, sp, rp, lis in ((3, 1, 1, 'TRUE'), (3, 2, 1, 'TRUE'), (3, 1, 2, 'FALSE'), (3, 0, 0, 'TRUE')) + (((4, 2, 2, 'TRUE'), (4, 1, 2, 'TRUE')) if tier != 'quick' else ()):
+        jobs.append({'name': 'QueuePools %d msgs, store pool %d, relay pool %d, listener %s: no cyclic wait, every message settles (fairness)' % (n, sp, rp, lis),
+                     'module': 'QueuePools', 'cfg': flow.write_cfg(wd, 'qp_%d_%d_%d.cfg' % (n, sp, rp), QP_CFG % (n, sp, rp, lis, 'FALSE', 'FALSE'))})
+    jobs.append({'name': 'deviation KF_BlockingFollowUp (D21 as found): TLC must find the cyclic wait, pools 1/1', 'module': 'QueuePools',
+                 'cfg': flow.write_cfg(wd, 'qp_kf21.cfg', QP_CFG % (3, 1, 1, 'FALSE', 'TRUE', 'FALSE')), 'expect_violation': ['C01_NoPoolDeadlock', 'temporal']})
+    jobs.append({'name': 'deviation KF_ListenerInPool (D30 as found): TLC must find enqueue() waiting for ever, store pool 1', 'module': 'QueuePools',
+                 'cfg': flow.write_cfg(wd, 'qp_kf30.cfg', QP_CFG % (2, 1, 1, 'TRUE', 'FALSE', 'TRUE')), 'expect_violation': ['C01_NoPoolDeadlock', 'temporal']})
+    if tier != 'quick':
+        jobs.append({'name': 'deviation KF_BlockingFollowUp with pools 2/2 and four messages: the cyclic wait is not special to size 1', 'module': 'QueuePools',
+                     'cfg': flow.write_cfg(wd, 'qp_kf21b.cfg', QP_CFG % (4, 2, 2, 'FALSE', 'TRUE', 'FALSE')), 'expect_violation': ['C01_NoPoolDeadlock', 'temporal']})
+    return jobs
+
+
 def run_queue_prop(prop, tier, mc_names, canaries, rule, trigger, text_assumptions, level='model_checking'):
     wd = workdir(prop)
     mc_jobs = qc_jobs(wd, mc_names)
+    if prop in ('C01', 'C12'):
+        mc_jobs += pool_jobs(wd, tier)
     return flow.standard(
         prop, tier, mc_jobs, 'queue', 'Trace_Queue', 'Trace_Queue.cfg', canaries, level=level, rule=rule, trigger=trigger,
         assumptions=text_assumptions + [
